@@ -12,7 +12,7 @@ KINDS = ['mixed', 'mixed', 'mixed', 'fwd', 'mixed', 'mixed', 'mixed', 'mixed']
 
 
 def run(ctx):
-    return mc.generic_run(ctx, 'C11', KINDS, n_quick=12, n_thorough=400)
+    return mc.generic_run(ctx, 'C11', KINDS, n_quick=40, n_thorough=400)
 
 
 def replay(ctx, payload):
